@@ -107,7 +107,8 @@ def run_tree(acc, st, case, scenario, k, start_rows, overwrite, Tm):
 
     def body(tape):
         dec = TapeDecider(tape)
-        with Owned(dec):
+        with Owned(dec) as own:
+            body.env = own
             if scenario == "sample":
                 start = space[start_rows].clone()
                 keep = start.clone()
@@ -116,6 +117,16 @@ def run_tree(acc, st, case, scenario, k, start_rows, overwrite, Tm):
                 start = space[start_rows].clone()
                 keep = start.clone()
                 r = st.rbm_am.gibbs_steps(k, start, overwrite=overwrite)
+            elif scenario in ("sample-strided", "gibbs-strided"):
+                # the chain buffer is a strided VIEW of a larger array the caller owns (every second column):
+                # in-place continuation must still reach the caller's memory
+                wide = torch.full((len(start_rows), 2 * n), 7.0, dtype=torch.double)
+                wide[:, ::2] = space[start_rows]
+                start = wide[:, ::2]
+                keep = start.clone()
+                r = st.sample(k=k, initial_state=start, overwrite=overwrite) if scenario == "sample-strided" else st.rbm_am.gibbs_steps(k, start, overwrite=overwrite)
+                if not bool((wide[:, 1::2] == 7.0).all()):
+                    flags.append(("memory-outside-the-start-state-view-modified", tape.choices[:]))
             elif scenario == "sample-1d":
                 start = space[start_rows[0]].clone()  # a single chain given as a 1-D vector
                 keep = start.clone()
@@ -144,6 +155,9 @@ def run_tree(acc, st, case, scenario, k, start_rows, overwrite, Tm):
                 if r.data_ptr() != a.data_ptr() or not torch.equal(r, a):
                     flags.append(("overwrite-did-not-update-in-place", tape.choices[:]))
                 start = keep = None
+        # a unit drawn as `uniform < p` is exactly Bernoulli(p) only if the uniform variate carries p's precision
+        for f in body.env.flags[:1]:
+            flags.append(("conditional-not-exact:" + f.replace(" ", "-"), tape.choices[:]))
         # per-execution invariants
         if tuple(r.shape) != (rows, n) or not bool(((r == 0) | (r == 1)).all()):
             flags.append(("not-0/1-of-requested-shape", tape.choices[:]))
@@ -221,6 +235,9 @@ def run_tree_item(acc, item):
         tree_case(acc, case, "gibbs", 1, [s], False)
         tree_case(acc, case, "sample-1d", min(K, 2), [s], False)
         tree_case(acc, case, "sample-1d", 1, [s], True)
+        tree_case(acc, case, "sample-strided", 1, [s], True)
+        tree_case(acc, case, "gibbs-strided", 1, [s], True)
+        tree_case(acc, case, "sample-strided", 1, [s], False)
         if K >= 2:
             tree_case(acc, case, "continued", [1, 1], [s], None)
         if K >= 3:
